@@ -444,3 +444,104 @@ Proof.
     rewrite Q in Hw. destruct Hw; discriminate.
 Qed.
 End NL.
+
+(* ------------------------------------------------------------------------------------------ *)
+(** an accepted writer log is a run of the fetch_add system: the calls reserve in the order of
+    their observed starts, write, finish; the final snapshot is the observed final vector *)
+Section Replay.
+Variable init : list nat.
+Variable ws : list (nat * list nat).
+Definition items_of (c : nat) : list nat := snd (nth c ws (0, [])).
+
+Lemma write_loop c e : forall r s i, i + r = length (items_of c) ->
+  reachable items_of init s -> pcs s c = CRes e i ->
+  exists s', reachable items_of init s' /\ pcs s' c = CRes e (length (items_of c)) /\
+             end_len s' = end_len s /\ resv s' = resv s /\ (forall c', c' <> c -> pcs s' c' = pcs s c').
+Proof.
+  induction r as [|r IH]; intros s i Hi R Hc.
+  - exists s. replace (length (items_of c)) with i by lia. auto.
+  - destruct (nth_error (items_of c) i) as [v|] eqn:Ev; [|apply nth_error_None in Ev; lia].
+    destruct (IH (mk (end_len s) (updf (mem s) (e + i) v) (updf (pcs s) c (CRes e (S i))) (resv s)) (S i))
+      as (s' & R' & A & B & C & D); [lia| |simpl; apply updf_eq|].
+    + apply (reach_step items_of init s); auto. apply (SWrite items_of s c e i v); auto.
+    + exists s'. simpl in *. repeat split; auto. intros c' N. rewrite D by auto. apply updf_neq; auto.
+Qed.
+
+Lemma run_call c s : reachable items_of init s -> pcs s c = CIdle ->
+  exists s', reachable items_of init s' /\ end_len s' = end_len s + length (items_of c) /\
+             resv s' = (c, end_len s) :: resv s /\ pcs s' c = CDone (end_len s) /\
+             (forall c', c' <> c -> pcs s' c' = pcs s c').
+Proof.
+  intros R Hc.
+  set (s1 := mk (end_len s + length (items_of c)) (mem s) (updf (pcs s) c (CRes (end_len s) 0))
+                ((c, end_len s) :: resv s)).
+  assert (R1 : reachable items_of init s1).
+  { unfold s1. apply (reach_step items_of init s); auto. apply (SReserve items_of s c Hc). }
+  destruct (write_loop c (end_len s) (length (items_of c)) s1 0) as (s2 & R2 & A & B & C & D); auto.
+  { simpl. apply updf_eq. }
+  exists (mk (end_len s2) (mem s2) (updf (pcs s2) c (CDone (end_len s))) (resv s2)).
+  split; [apply (reach_step items_of init s2); auto; apply (SFinish items_of s2 c (end_len s)); auto|]. simpl.
+  rewrite B, C. simpl. repeat split; auto.
+  - apply updf_eq.
+  - intros c' N. rewrite updf_neq by auto. rewrite D by auto. simpl. apply updf_neq. auto.
+Qed.
+
+(** run the calls 0 .. k-1 one after the other *)
+Lemma run_prefix : forall k, k <= length ws ->
+  exists s, reachable items_of init s /\
+    resv s = rev (map (fun c => (c, length init + length (concat (map snd (firstn c ws))))) (seq 0 k)) /\
+    end_len s = length init + length (concat (map snd (firstn k ws))) /\
+    (forall c, c < k -> exists st, pcs s c = CDone st) /\ (forall c, k <= c -> pcs s c = CIdle).
+Proof.
+  induction k as [|k IH]; intros Hk.
+  - exists (init_st init). split; [apply reach_init|]. simpl. repeat split; auto; try lia; intros; lia.
+  - destruct IH as (s & R & Hr & He & Hd & Hi); [lia|].
+    destruct (run_call k s R (Hi k (le_n k))) as (s' & R' & E' & V' & D' & O').
+    exists s'. split; auto.
+    assert (Hf : firstn (S k) ws = firstn k ws ++ [nth k ws (0, [])]).
+    { clear -Hk. revert ws Hk. induction k; intros [|w tl] H; simpl in *; try lia; auto.
+      f_equal. apply IHk. lia. }
+    repeat split.
+    + rewrite V', Hr, He. rewrite seq_S, map_app, rev_app_distr. simpl. reflexivity.
+    + rewrite E', He, Hf. rewrite map_app, concat_app, app_length. simpl. rewrite app_nil_r.
+      unfold items_of. lia.
+    + intros c Hc. destruct (Nat.eq_dec c k) as [->|N]; [eauto|]. rewrite O' by auto. apply Hd. lia.
+    + intros c Hc. rewrite O' by lia. apply Hi. lia.
+Qed.
+
+Lemma tiles_from_starts : forall l cur, tiles_from cur l = true ->
+  forall c, c < length l -> fst (nth c l (0, [])) = cur + length (concat (map snd (firstn c l))).
+Proof.
+  induction l as [|[st its] tl IH]; intros cur H c Hc; simpl in Hc; [lia|].
+  simpl in H. apply andb_prop in H. destruct H as [H1 H2]. apply Nat.eqb_eq in H1. subst st.
+  destruct c; simpl; [lia|]. rewrite (IH _ H2 c) by lia. rewrite app_length. lia.
+Qed.
+
+Theorem writer_replay_sound final : check_case (init, ws, final) = true ->
+  exists s, reachable items_of init s /\
+    (forall c st, In (c, st) (resv s) -> pcs s c = CDone st /\ st = fst (nth c ws (0, []))) /\
+    snapshot s = final.
+Proof.
+  unfold check_case. intro H. apply andb_prop in H. destruct H as [Ht Hf].
+  destruct (run_prefix (length ws) (le_n _)) as (s & R & Hr & He & Hd & _).
+  exists s. split; auto.
+  assert (Hres : forall c st, In (c, st) (resv s) -> pcs s c = CDone st /\ st = fst (nth c ws (0, []))).
+  { intros c st Hin. rewrite Hr in Hin. apply in_rev in Hin. apply in_map_iff in Hin.
+    destruct Hin as (c0 & E & Hc0). injection E as -> <-. apply in_seq in Hc0.
+    rewrite (tiles_from_starts ws _ Ht c) by lia. split; auto.
+    destruct (Hd c) as (st & Hst); [lia|].
+    destruct (i_done items_of init s (reachable_inv items_of init s R) _ _ Hst) as [Hin' _].
+    rewrite Hr in Hin'. apply in_rev in Hin'. apply in_map_iff in Hin'.
+    destruct Hin' as (c1 & E1 & _). injection E1 as -> <-. auto. }
+  split; auto.
+  destruct (all_present_intact items_of init s R) as [Hs _]; [intros; apply Hres; auto|].
+  rewrite Hs. unfold expected_vec. rewrite Hr, rev_involutive, map_map. simpl.
+  assert (E : map (fun x : nat => items_of x) (seq 0 (length ws)) = map snd ws).
+  { unfold items_of. clear. induction ws as [|w tl IH]; simpl; auto. f_equal.
+    rewrite <- seq_shift, map_map. auto. }
+  rewrite E.
+  clear -Hf. revert Hf. generalize (init ++ concat (map snd ws)). intros l.
+  revert l. induction final as [|a f IH]; intros [|b l] H; simpl in H; try discriminate; auto.
+  apply andb_prop in H. destruct H as [H1 H2]. apply Nat.eqb_eq in H1. subst. f_equal. apply IH. auto.
+Qed.
+End Replay.
